@@ -10,6 +10,7 @@
         replay the skeleton along the decisions that produce <trace>, against a device that
         answers OK except at the faulted positions; <faults> = `-` | k:c,k:c,…
     fru <storehex> <off|-> <count|-> <faults>      -> ok <hex> <nreq> | <tag> <nreq>
+    fruarea <storehex> <off> <faults>              -> ok <hex> <nreq> | <tag> <nreq>      (fru._read_fru_area)
     clear <budget> <faults>                        -> <tag> <nreq>
     andwait <busy 0|1> <polls> <faults>            -> <tag> <nreq>
     upload <nblocks> <busy 0|1> <polls> <faults>   -> <tag> <nreq>
@@ -31,6 +32,7 @@
 -/
 import PyIpmi.Base.Proto
 import PyIpmi.Model.Prog
+import PyIpmi.Model.ProgMore
 import PyIpmi.Model.ProgOps
 import PyIpmi.Spec.FaultDevice
 import PyIpmi.Gen.ApiShapes
@@ -201,6 +203,15 @@ def handleC08 (line : String) : String :=
         | e => s!"{resTag e} {n}"
       | none => "bad-op"
     | _, _ => "bad-op"
+  | ["fruarea", sh, off, fs] =>
+    match ofHex sh, off.toNat?, parseFaults fs with
+    | some store, some o, some f =>
+      let p := readFruArea mkRead (·.data.headD 0) (·.data.tail) back 32 (2 * store.length + 80) o
+      let (r, n) := runOn p (drvBase store false) f
+      match r with
+      | .ok d => s!"ok {toHex d} {n}"
+      | e => s!"{resTag e} {n}"
+    | _, _, _ => "bad-op"
   | ["clear", budget, fs] =>
     match budget.toNat?, parseFaults fs with
     | some b, some f =>
